@@ -46,9 +46,11 @@ abbrev Space := CSpace
 
 /-- ISO 32000-1 Table 74, operator CS: the initial colour of a colour space.  DeviceGray, DeviceRGB,
 CalGray, CalRGB, Lab, ICCBased, Indexed: all components 0; DeviceCMYK: 0 0 0 1; Separation, DeviceN:
-all tints 1; Pattern: a pattern that paints nothing (no colour). -/
+all tints 1; Pattern: a pattern that paints nothing (no colour).  No colour space has more than 32
+components (ISO 32000-1 Annex C.2: at most 32 colorants in a DeviceN space; ICCBased has N = 1, 3, 4): for
+a "space" with 0 or more than 32 components no initial colour exists. -/
 def isoInit (sp : Space) : Option Colour :=
-  if sp.n = 0 then none
+  if sp.n = 0 ∨ sp.n > 32 then none
   else match sp.name with
     | "Pattern" => none
     | "DeviceCMYK" => some (.comps [0, 0, 0, 1])
